@@ -128,10 +128,33 @@ theorem checkoutPre_spec (db : DB) : PreSpec db db.checkoutPre.1 db.checkoutPre.
 theorem preSpec_shrinks {db db1 : DB} {o : Option Raw} (h : PreSpec db db1 o) : Shrinks db db1 :=
   ⟨h.reset, h.idle, fun _ hi => by unfold HeldIso; rw [h.raw]; exact hi⟩
 
+/-- `staleCheck` at most reads the clock -/
+theorem staleCheck_state (db : DB) (r : Raw) :
+    (db.staleCheck r).1 = db ∨ (db.staleCheck r).1 = db.tick.1 := by
+  unfold DB.staleCheck
+  cases db.recycle with
+  | none => exact Or.inl rfl
+  | some rc => exact Or.inr rfl
+
+/-- whatever is closed under "new DBAPI connection" and "clock reading" holds of a freshly
+    created and checked-out record -/
+theorem freshRaw_cases (db : DB) (P : DB → Prop) (h1 : P db.newRaw)
+    (ht : ∀ d, P d → P d.tick.1) (hn : ∀ d, P d → P d.newRaw) : P db.freshRaw := by
+  unfold DB.freshRaw
+  simp only []
+  rcases staleCheck_state db.newRaw db.newRaw.raw with h | h
+  · split
+    · rw [h]; exact hn _ h1
+    · rw [h]; exact h1
+  · split
+    · rw [h]; exact hn _ (ht _ h1)
+    · rw [h]; exact ht _ h1
+
 /-- case analysis of a successful `Pool.connect()` -/
 theorem checkout_cases (db : DB) (P : DB → Prop)
     (h1 : ∀ db1 r, PreSpec db db1 (some r) → P (db1.handOut r))
-    (h2 : ∀ db1, PreSpec db db1 none → P db1.newRaw) : P db.checkout := by
+    (h2 : ∀ db1, PreSpec db db1 none → P db1.newRaw)
+    (ht : ∀ d, P d → P d.tick.1) (hn : ∀ d, P d → P d.newRaw) : P db.checkout := by
   have hp := checkoutPre_spec db
   unfold DB.checkout
   cases hx : db.checkoutPre with
@@ -139,7 +162,10 @@ theorem checkout_cases (db : DB) (P : DB → Prop)
     obtain ⟨o, hr⟩ := rest
     rw [hx] at hp
     cases o with
-    | none => exact h2 db1 hp
+    | none =>
+      cases hr with
+      | true => exact h2 db1 hp
+      | false => exact freshRaw_cases db1 P (h2 db1 hp) ht hn
     | some r => exact h1 db1 r hp
 
 theorem handOut_frame (db : DB) (r : Raw) :
@@ -153,30 +179,26 @@ theorem handOut_frame (db : DB) (r : Raw) :
   split <;> exact ⟨rfl, rfl, rfl, rfl, rfl, rfl, rfl, rfl, rfl, rfl, rfl, rfl⟩
 
 theorem checkout_shrinks (db : DB) : Shrinks db db.checkout := by
-  have hp := checkoutPre_spec db
-  unfold DB.checkout
-  cases hx : db.checkoutPre with
-  | mk db1 rest =>
-    obtain ⟨o, hr⟩ := rest
-    rw [hx] at hp
-    simp only [] at hp
-    have hs := preSpec_shrinks hp
-    cases o with
-    | none => exact hs.trans (newRaw_shrinks db1)
-    | some r =>
-      simp only []
-      have hin := (hp.out r rfl).1
-      refine ⟨?_, ?_, ?_⟩
-      · have : (db1.handOut r).reset = db1.reset := by unfold DB.handOut; split <;> rfl
-        rw [this]; exact hp.reset
-      · intro x hx
-        have : (db1.handOut r).idle = db1.idle := by unfold DB.handOut; split <;> rfl
-        rw [this] at hx; exact hp.idle x hx
-      · intro hc _
-        have := hc r hin
-        have e1 : (db1.handOut r).raw.autocommit = r.autocommit := by unfold DB.handOut; split <;> rfl
-        have e2 : (db1.handOut r).raw.readUnc = r.readUnc := by unfold DB.handOut; split <;> rfl
-        exact heldIso_clean (by rw [e1]; exact this.2.2.1) (by rw [e2]; exact this.2.2.2.1)
+  apply checkout_cases db (fun d => Shrinks db d)
+  · intro db1 r hp
+    have hin := (hp.out r rfl).1
+    refine ⟨?_, ?_, ?_⟩
+    · have : (db1.handOut r).reset = db1.reset := by unfold DB.handOut; split <;> rfl
+      rw [this]; exact hp.reset
+    · intro x hx
+      have : (db1.handOut r).idle = db1.idle := by unfold DB.handOut; split <;> rfl
+      rw [this] at hx; exact hp.idle x hx
+    · intro hc _
+      have := hc r hin
+      have e1 : (db1.handOut r).raw.autocommit = r.autocommit := by unfold DB.handOut; split <;> rfl
+      have e2 : (db1.handOut r).raw.readUnc = r.readUnc := by unfold DB.handOut; split <;> rfl
+      exact heldIso_clean (by rw [e1]; exact this.2.2.1) (by rw [e2]; exact this.2.2.2.1)
+  · intro db1 hp
+    exact (preSpec_shrinks hp).trans (newRaw_shrinks db1)
+  · intro d h
+    exact h.trans (shrinks_of_eq rfl rfl rfl rfl rfl)
+  · intro d h
+    exact h.trans (newRaw_shrinks d)
 
 theorem apply_shrinks (db : DB) (q : Sql) (db' : DB) (r : Res) (h : db.apply q = (some db', r)) :
     Shrinks db db' := by
@@ -291,19 +313,18 @@ theorem checkout_held_clean (db : DB) (hc : PoolClean db) :
     db.checkout.raw.working = db.checkout.committed ∧ db.checkout.raw.saves = [] ∧
     db.checkout.raw.autocommit = false ∧ db.checkout.raw.readUnc = false ∧
     db.checkout.raw.finalize = [] := by
-  have hp := checkoutPre_spec db
-  unfold DB.checkout
-  cases hx : db.checkoutPre with
-  | mk db1 rest =>
-    obtain ⟨o, hr⟩ := rest
-    rw [hx] at hp
-    simp only [] at hp
-    cases o with
-    | none => simp [DB.newRaw, DB.tick]
-    | some r =>
-      obtain ⟨h1, h2, h3, h4, h5⟩ := hc r (hp.out r rfl).1
-      simp only [DB.handOut, h1, if_true]
-      exact ⟨trivial, h2, h3, h4, h5⟩
+  apply checkout_cases db (fun d => d.raw.working = d.committed ∧ d.raw.saves = [] ∧
+    d.raw.autocommit = false ∧ d.raw.readUnc = false ∧ d.raw.finalize = [])
+  · intro db1 r hp
+    obtain ⟨h1, h2, h3, h4, h5⟩ := hc r (hp.out r rfl).1
+    simp only [DB.handOut, h1, if_true]
+    exact ⟨trivial, h2, h3, h4, h5⟩
+  · intro db1 _
+    simp [DB.newRaw, DB.tick]
+  · intro d h
+    exact h
+  · intro d _
+    simp [DB.newRaw, DB.tick]
 
 /-- what a failing connect leaves behind -/
 theorem checkoutF_shrinks (db : DB) : Shrinks db db.checkoutF.1 := by
@@ -352,6 +373,8 @@ theorem checkout_faults (db : DB) : db.checkout.faults = db.faults := by
     rw [(handOut_frame db1 r).2.2.1]; exact hp.faults
   · intro db1 hp
     simp only [DB.newRaw, DB.tick]; exact hp.faults
+  · intro d h; exact h
+  · intro d h; simp only [DB.newRaw, DB.tick]; exact h
 
 theorem checkout_listener (db : DB) : db.checkout.listener = db.listener := by
   apply checkout_cases db (fun d => d.listener = db.listener)
@@ -359,6 +382,8 @@ theorem checkout_listener (db : DB) : db.checkout.listener = db.listener := by
     rw [(handOut_frame db1 r).2.2.2.1]; exact hp.listener
   · intro db1 hp
     simp only [DB.newRaw, DB.tick]; exact hp.listener
+  · intro d h; exact h
+  · intro d h; simp only [DB.newRaw, DB.tick]; exact h
 
 /-- with no fault armed `Pool.connect()` succeeds -/
 theorem checkoutF_nofault {db : DB} (hf : db.faults = []) : db.checkoutF = (db.checkout, none) := by
